@@ -556,7 +556,10 @@ Definition stream_connect (s : st) : st :=
       if shutreq s5 && negb (connecting s5) && fdopen s5 then
         match wq s5, cq s5 with [], [] => drain s5 | _, _ => s5 end
       else s5
-    else s4.
+    else
+      (* requests that had finished before this connect was started still wait for their callbacks:
+         the wake-up meant for them ended up here; uv__io_feed hands it back *)
+      match cq s4 with [] => s4 | _ :: _ => set_fed true s4 end.
 
 (* uv__stream_io with POLLOUT (nothing to read) *)
 Definition stream_io (s : st) : st :=
